@@ -129,10 +129,10 @@ func c03Grammar(c *fw.Ctx, i int) {
 	var h rtp.Header
 	var err, herr error
 	var hn int
-	in := append([]byte{}, wire...)
+	in := fw.Exact(wire)
 	if pv, st := fw.Guard(func() {
 		err = pk.Unmarshal(in)
-		hn, herr = h.Unmarshal(append([]byte{}, wire...))
+		hn, herr = h.Unmarshal(fw.Exact(wire))
 	}); pv != nil {
 		c.Fail("C03/decode/panic/"+fw.PanicFunc(st), fmt.Sprintf("Unmarshal panicked on a well-formed image: %v", pv), wit("stack", st))
 		return
@@ -238,7 +238,7 @@ func c03Mutant(c *fw.Ctx, i int) {
 	}
 	var pk rtp.Packet
 	var err error
-	if pv, st := fw.Guard(func() { err = pk.Unmarshal(append([]byte{}, in...)) }); pv != nil {
+	if pv, st := fw.Guard(func() { err = pk.Unmarshal(fw.Exact(in)) }); pv != nil {
 		c.Fail("C03/mutant/panic/"+fw.PanicFunc(st), fmt.Sprintf("Unmarshal panicked: %v", pv), wit("stack", st))
 		return
 	}
@@ -299,7 +299,7 @@ func c03Views(c *fw.Ctx, i int) {
 	default:
 		view = &rtp.RawExtension{}
 	}
-	in := append([]byte{}, block...)
+	in := fw.Exact(block)
 	var n int
 	var err error
 	var ids []uint8
